@@ -151,6 +151,10 @@ def _legacy_case(rng):
     spec = pfile.gen_file(rng)
     dl = {d[0]: d[1] for d in spec['dims']}
     n = rng.choice(list(dl))
+    if rng.random() < 0.25 and len(dl) >= 2:
+        # a variable that has the selected dimension on two axes (a covariance matrix): both are cut
+        o = rng.choice([k for k in dl if k != n])
+        spec['vars'].append(pfile._mkvar(rng, 'COV', rng.choice([[n, n], [n, o, n], [o, n, n]]), dl, 7, rng.random() < 0.3))
     L = dl[n]
     form = rng.choice(['i', 'ab', 'abs', 'abs', 'abs'])
     if form == 'i':
@@ -498,8 +502,11 @@ def oracle(case, res):
         wcells = lib.show_list(['_' if x == -1 else str(x) for x in np.asarray(want, dtype=object).ravel().tolist()])
         if g['cells'] != wcells:
             return 'variable %s holds %s, an orthogonal selection gives %s' % (v['name'], g['cells'][:120], wcells[:120])
+        # (the string front end may add attributes of its own, e.g. the fill value of a masked variable; it drops none)
         if case.get('kind') != 'legacy' and g['attrs'] != ('.'.join(sorted(v['attrs'])) or '-'):
             return 'variable %s attributes %s, expected %s' % (v['name'], g['attrs'], sorted(v['attrs']))
+        if case.get('kind') == 'legacy' and not set(v['attrs']) <= set(g['attrs'].split('.')):
+            return 'slice_dim: variable %s attributes %s, the input has %s' % (v['name'], g['attrs'], sorted(v['attrs']))
     return None
 
 
